@@ -120,5 +120,39 @@ PROPS["C14"] = dict(
     level_text=("Exhaustive over 13 types x C 1..8 x roots <=6 (9) frames x all windows x every channel x every index; larger parents sampled."),
     level_note="BufferIndex is called with the view's own channel as first argument (as the repository's test does). Trusts Alloc/Slice and root Sample/SetSample.",
 )
+PROPS["C15"] = dict(
+    pkg="c15", idx=15,
+    rule=("Cases = one of the 13 guarded entry points with mismatching shapes: the nine conversions (all 169 instantiations) and Append with "
+          "different channel counts, ReadStriped/WriteStriped (169 type pairs) with a slice count != channel count (nil members included), "
+          "PoolAllocator.Put of a buffer whose total capacity differs (other K, smaller K, other channel count, window from a later frame, "
+          "buffer grown by Append), with or without a legitimate buffer already pooled; operands are non-empty sentinel-filled windows. "
+          "Oracle: the call panics; afterwards both operands' whole root storage, headers and the caller's slices are unchanged; for Put the "
+          "rejected buffer is intact (not cleared) and the next three Gets return allocator-shaped zeroed buffers. Every case is a mismatch "
+          "by construction; distinct = distinct (entry point, types, shapes)."),
+    quick=dict(rapid=dict(checks=20000, shards=2)),
+    thorough=dict(rapid=dict(checks=100000, shards=16), fuzz=dict(targets=["FuzzC15"], seconds=20)),
+    assumptions=COMMON_ASSUME,
+    technique="bounded-exhaustive cross product of guarded entry points x shape mismatches + property-based testing (rapid); oracle = panic observed by recover plus whole-state snapshots",
+    level_text=("Exhaustive cross product: 169 conversions + Append x all ordered pairs of different channel counts 1..4 x 3 shapes; striped forms x 169 "
+                "type pairs x slice counts 0..5; Put x 13 types x 5 mismatch kinds; larger shapes sampled by rapid."),
+    level_note="A pool that swallowed a foreign buffer is detected through the next Gets (sync.Pool hands back recently put objects on the same P); trusts recover() and the fixtures.",
+)
+PROPS["C20"] = dict(
+    pkg="c20", idx=20,
+    rule=("Cases = a degenerate allocator (zero value; zero channels with non-zero L<=K; C>=1 with zero capacity; K>0 with zero length) x element "
+          "types x every exported entry point: size methods, Read/Write/ReadStriped/WriteStriped (169 type pairs, slices of length 0..40, nil "
+          "members), the nine conversions (169 instantiations; degenerate source, destination or both; same-channel partner of 0..40 frames), "
+          "AppendSample, Append of an empty buffer and of itself, Slice(0,0), Channel(0) size methods, pool Get/Put, ChannelLength(n,0). "
+          "Oracle: no panic; sizes 0 for zero-channel/zero-capacity buffers; every read/write/conversion returns 0 and leaves caller slices, "
+          "partner storage and the buffer's capacity region untouched; AppendSample/Append(empty) leave Len 0; ChannelLength(n,0) in [0,n]. "
+          "Every case is degenerate by construction; distinct = distinct (entry point, shape, types, lengths)."),
+    quick=dict(rapid=dict(checks=20000, shards=2)),
+    thorough=dict(rapid=dict(checks=100000, shards=16), fuzz=dict(targets=["FuzzC20"], seconds=20)),
+    assumptions=COMMON_ASSUME,
+    technique="bounded-exhaustive cross product of entry points x degenerate shapes + property-based testing (rapid); oracle = no panic, zero counts, whole-state snapshots",
+    level_text=("Exhaustive cross product of every exported entry point x every degenerate allocator on a small grid x all types/pairs/instantiations; "
+                "larger degenerate shapes and partner sizes sampled by rapid."),
+    level_note="For ChannelLength(n>0, 0), a combination no buffer can produce, only 'no panic and a result in [0,n]' is demanded.",
+)
 
 NOT_APPLICABLE = {}
